@@ -436,6 +436,29 @@ def shadowed_module_constant(a):
     _LIMIT = a * 2
     return _LIMIT + 1
 
+def read_before_try_must_stay(xs, i):
+    e = xs[i]
+    try:
+        return e + 1
+    except IndexError:
+        return "caught"
+
+def field_read_before_try_must_stay(p):
+    v = p.missing
+    try:
+        return v
+    except AttributeError:
+        return "caught"
+
+def _helper_mutable_default(x, acc=[]):
+    acc.append(x)
+    return len(acc)
+
+def uses_mutable_default_helper_must_stay(a):
+    n1 = _helper_mutable_default(a)
+    n2 = _helper_mutable_default(a)
+    return n2 - n1
+
 class Box:
     def __init__(self, v):
         self.v = v
@@ -492,6 +515,7 @@ ARGS = {
     "counting_while_else_adjacent": [([1, 2, 3], 2), ([1, 2, 3], 9), ([], 1)], "counting_while_with_continue_must_stay": [([1, -2, 3],)],
     "uses_helper_defaults": [(2, [5, 6])], "generator_consumer_with_break_must_stay": [([1, 2, 3], 2), ([1, 2, 3], 9)], "nested_collecting": [([[1, 2], [3]],)],
     "uses_cached_helper_must_stay": [(3,), (4,)],
+    "read_before_try_must_stay": [([1, 2], 0), ([1, 2], 5)], "field_read_before_try_must_stay": [(_P(1),)], "uses_mutable_default_helper_must_stay": [(1,)],
     "record_scalar_replacement": [(1, 2)], "record_escapes_must_stay": [(1, 2)], "uses_rebinding_helper": [("low", {"low": 0.1}), (0.5, {}), (2.0, {})],
     "format_call": [(1, "z")], "format_call_with_spec_must_stay": [(7,)], "polarity_two_branches": [(None,), (0,), (3,)],
     "polarity_return_pair": [(1, [1, 2]), (5, [1, 2])], "module_constants": [(2,), (9,)], "shadowed_module_constant": [(4,)],
